@@ -13,7 +13,7 @@ import tokenize
 
 from .proj import Tables
 
-N_VARIANTS = 9
+N_VARIANTS = 10
 
 
 def _same(a: str, b: str) -> bool:
@@ -340,6 +340,55 @@ def tight(src: str, rng: random.Random, p=0.6) -> str:
     return '\n'.join(lines)
 
 
+def mixed_indent(src: str, rng: random.Random, p=0.6) -> str:
+    """Re-indent the blocks of some top-level compound statements with another width (2 / 3 / 8 spaces), so that the
+    file's blocks do not all use the indentation the root infers. Multi-line strings are left alone."""
+    try:
+        tree = ast.parse(src)
+        toks = _toks(src)
+    except (SyntaxError, tokenize.TokenError, IndentationError):
+        return src
+    lines = src.split('\n')
+    instr = set()
+    for t in toks:
+        if t.type == tokenize.STRING and t.start[0] != t.end[0]:
+            instr.update(range(t.start[0] + 1, t.end[0] + 1))
+    fs = None
+    for t in toks:
+        if t.type == getattr(tokenize, 'FSTRING_START', -1):
+            fs = t.start[0]
+        elif t.type == getattr(tokenize, 'FSTRING_END', -2) and fs is not None:
+            instr.update(range(fs + 1, t.end[0] + 1))
+    first = True
+    for st in tree.body:
+        if not hasattr(st, 'body') or st.end_lineno == st.lineno:
+            continue
+        if first:
+            first = False  # keep the first block as written: it is what the root's default indentation is inferred from
+            continue
+        if rng.random() > p:
+            continue
+        w = rng.choice((2, 3, 8, 1))
+        trial = lines[:]
+        ok = True
+        for ln in range(st.lineno, st.end_lineno + 1):
+            text = trial[ln - 1]
+            if ln in instr or not text.strip():
+                continue
+            stripped = text.lstrip(' ')
+            n = len(text) - len(stripped)
+            if text[:1] == '\t':
+                ok = False
+                break
+            if n % 4:
+                ok = False
+                break
+            trial[ln - 1] = ' ' * (n // 4 * w) + stripped
+        if ok and _same(src, '\n'.join(trial)):
+            lines = trial
+    return '\n'.join(lines)
+
+
 def variant(src: str, v: int, seed: int) -> str:
     """Deterministic layout variant `v` of `src` (0 = as written)."""
     rng = random.Random(seed * 31 + v)
@@ -365,4 +414,6 @@ def variant(src: str, v: int, seed: int) -> str:
         return s
     if v == 8:
         return tight(redundant_parens(src, rng, p=0.5), rng)
+    if v == 9:
+        return mixed_indent(src, rng)
     return src
